@@ -1,6 +1,7 @@
 (* C01 — each ingested point is aggregated exactly once into the right group and period. *)
 From Coq Require Import QArith Lia.
 From Zeno Require Import Base Sort Expr ExprSpec ExprP DB DBP Tie Store StoreExprP.
+From Zeno Require Tree TreeP.
 Local Open Scope Z_scope.
 
 (* a point with timestamp ts is counted in the period ending at the least multiple of the resolution >= ts, and in no other *)
@@ -60,6 +61,30 @@ Example C01_store_nonvacuous :
   Forall (ev_ok 2 6) evs /\ read e 2 4 evs k 14 = CAgg (Some 112) /\ read e 2 4 evs k 12 = CAgg (Some 1).
 Proof. split; [repeat constructor; cbn; lia|]. vm_compute. auto. Qed.
 
+(* the memstore's radix tree (bytetree.Tree, Model/Tree.v) is a finite map whatever the keys: after any sequence of
+   Updates from the empty tree every key reads as what its own Updates accumulated, in order (nil to start with),
+   a key that was never updated is absent, and Length is the number of keys; a Walk reports every key once *)
+Theorem C01_tree_is_a_map : forall (D:Type) (ups:list (list Z * (option D -> D))) key,
+  Tree.tfind key (TreeP.built ups) = TreeP.spec_data key ups None.
+Proof. exact TreeP.built_find. Qed.
+Theorem C01_tree_update : forall (D:Type) (f:option D -> D) key (t:Tree.tree D), TreeP.wf_tree t ->
+  TreeP.wf_tree (Tree.tupdate f key t)
+  /\ (forall key', Tree.tfind key' (Tree.tupdate f key t)
+                   = if list_eqb Z.eqb key' key then Some (f (Tree.tfind key t)) else Tree.tfind key' t).
+Proof. exact TreeP.tupdate_map. Qed.
+Theorem C01_tree_walk_each_key_once : forall (D:Type) ctx keep (t:Tree.tree D), TreeP.wf_tree t -> TreeP.unmarked ctx t ->
+  let vs := snd (Tree.twalk ctx (fun _ _ => (true, keep)) t) in
+  Permutation.Permutation vs (map (@TreeP.kd_of D) (TreeP.content t)) /\ NoDup (map fst vs)
+  /\ (forall k d, In (k, d) vs <-> Tree.tfind k t = Some d).
+Proof. exact TreeP.twalk_all. Qed.
+(* the tree as shipped is refuted (repaired in /repo, e89d368): "abc", "abd", then "ab" reported the empty key *)
+Theorem C01_shipped_tree_refuted :
+  exists ups, let t := TreeP.shipped_built ups in
+    In [97; 98] (map fst ups) /\ ~ In [] (map fst ups)
+    /\ snd (Tree.twalk 0 (fun _ _ => (true, true)) t) = [([], 2); ([97; 98; 99], 1); ([97; 98; 100], 1)]
+    /\ Tree.t_len t = 2.
+Proof. exact TreeP.shipped_update_refuted. Qed.
+
 Print Assumptions C01_bucket.
 Print Assumptions C01_bucket_unique.
 Print Assumptions C01_one_row_per_group_period.
@@ -68,3 +93,7 @@ Print Assumptions C01_field_is_declared_aggregate.
 Print Assumptions C01_kernels_are_the_source.
 Print Assumptions C01_store_state.
 Print Assumptions C01_store_value.
+Print Assumptions C01_tree_is_a_map.
+Print Assumptions C01_tree_update.
+Print Assumptions C01_tree_walk_each_key_once.
+Print Assumptions C01_shipped_tree_refuted.
